@@ -60,6 +60,11 @@ def spec(tier):
     for i in range(2 if quick else 8):
         jobs.append(Job("hooks", "h_duplex", ["--mode=siblings", "--trials=%d" % nd, "--first=%d" % (70000 + i * nd)], ncpu=[None, 4][i % 2], timeout=T, tag="h_duplex:siblings:hooks:%d" % i))
     jobs.append(Job("asan", "h_duplex", ["--mode=siblings", "--trials=%d" % (nd // 2), "--first=80000"], timeout=600 if quick else 1800, tag="h_duplex:siblings:asan"))
+    # the same with the window between the stream handler's check of the channel and the one in perform widened (F34): delays at
+    # the atomics of dispatch_suspend, which the handler passes in between
+    for i in range(3 if quick else 12):
+        jobs.append(Job("hooks", "h_duplex", ["--mode=siblings", "--trials=%d" % (2 * nd), "--first=%d" % (85000 + i * 2 * nd), "--perturb=hot", "--hot-func=_dispatch_lane_suspend"],
+                        timeout=T, tag="h_duplex:siblings:hot-suspend:%d" % i))
     if not quick:
         add("default", 20, 500, flavor="dbg", extra=BULK, timeout=1800)
         add("default", 10, 300, flavor="asan", ncpu=2, extra=BULK, timeout=1800)
